@@ -34,7 +34,7 @@ class ExtraKeysError(ValueError):
         return type_name(self.target_type, short=True)
 
     def __str__(self) -> str:
-        extra_keys_str = ", ".join(k for k in self.extra_keys)
+        extra_keys_str = ", ".join(str(k) for k in self.extra_keys)
         return (
             "Serialized dict has keys that are not defined in "
             f"{self.target_class_name}: {extra_keys_str}"
